@@ -358,10 +358,12 @@ CLAIMED = {
              "hermitian_conjugate_is_the_adjoint (<O^dagger f, g> = <f, O g> for all states over any register containing the "
              "labels' qubits); the matrix export by matrix_export_is_the_denotation (entry (i, j) of get_sparse_matrix's "
              "Kronecker construction is the matrix element <i|O|j>, every register size, all indices). Two defects found by "
-             "this check were repaired (fix: a812a32, 77bd0ed).",
+             "this check were repaired (fix: a812a32, 77bd0ed). transition_amplitude_is_the_matrix_element (TransAmp.v): with the bsv masks and "
+             "phase (-i)^#Y of pauli_label_to_bsv, the sum transition_amp_comp_basis forms over the terms filed under x = m xor n is "
+             "<m|O|n>, every register size, all indices; run exactly against the real functions on registers up to 70 qubits.",
         design_ref="DESIGN.md section 4 (C05), 9.2",
         note="Trusted: Coq kernel+vm_compute; Reals axioms + funext; translate/tables.py; correspondence harnesses; scipy's kron "
-             "index rule as modelled. Partial: bsv / transition amplitudes, Trotter-Suzuki, label interning and parsing have no "
+             "index rule as modelled. Partial: Trotter-Suzuki, label interning and parsing have no "
              "theorem (sweep / correspondence); binary64 rounding not modelled.",
         technique="Coq proof (induction over labels and term lists on an n-qubit operator semantics, table obligations "
                   "by vm_compute) + vm_compute correspondence + dense numpy sweep"),
